@@ -416,13 +416,19 @@ def checkNums (num : V → Option W) : List (Snap V) → Except String Unit
   | .node _ :: _ => .error "ValueError: type inhomogeneity"
   | .scale _ :: _ => .error "NotImplementedError"
 
+/-- `first_node._children.keys()` -/
+def snapKeys : Snap V → List String
+  | .node cs => cs.map (·.1)
+  | .val _ => []
+  | .scale _ => []
+
 /-- `check_nodes_homogeneous(named_nodes)`: level by level, all the nodes of a level must be of one
     kind and, if nodes, carry the same key set; their children are pooled for the next level -/
 def homog (num : V → Option W) (l : List (Snap V)) : Except String Unit :=
   match l with
   | [] => .error "IndexError"
   | .node cs :: rest =>
-    match checkNodes (cs.map (·.1)) rest with
+    match checkNodes (snapKeys (.node cs)) rest with
     | .error e => .error e
     | .ok () => homog num (pool (.node cs :: rest))
   | .val v :: rest => if (num v).isSome then checkNums num rest else .error "NotImplementedError"
@@ -606,5 +612,45 @@ def asof (num : V → Option W) (s : Snap V) (dates : List Int) : Except String 
   match buildVec asofLt num s with
   | .error e => .error e
   | .ok row => asofIndex row dates
+
+/-! ## Specification vocabulary (used by the theorems of `Props/C07.lean`) -/
+
+mutual
+/-- the float values of a row, in field order (to display concrete results) -/
+def rowLeaves : VRow W → List W
+  | .leaf w => [w]
+  | .record fs => fieldLeaves fs
+def fieldLeaves : List (String × VRow W) → List W
+  | [] => []
+  | (_, r) :: t => rowLeaves r ++ fieldLeaves t
+end
+
+/-- the rows of a successful vector read, flattened; `none` when it raised -/
+def shownRows (r : Except String (List (VRow W))) : Option (List (List W)) :=
+  match r with
+  | .ok rows => some (rows.map rowLeaves)
+  | .error _ => none
+
+/-- the date an `after_…` name stands for (0 when it does not parse) -/
+def dateOf (n : String) : Int := (parseAfter n).getD 0
+
+/-- Claim domain of as-of-date indexing, on the child names of the group: distinct names (a `dict`),
+    exactly one `before…` child and at least one other child, every other name parses as
+    `after_YYYY_MM_DD`, distinct dates, and the names order (as strings, which is how the code sorts
+    them) like their dates — true of the zero-padded spelling. -/
+def AsofWF (names : List String) : Prop :=
+  names.Nodup ∧ (names.filter isBefore).length = 1 ∧ 2 ≤ names.length ∧
+  (∀ a ∈ names, isBefore a = false → (parseAfter a).isSome = true) ∧
+  (∀ a ∈ names, ∀ b ∈ names, isBefore a = false → isBefore b = false → dateOf a < dateOf b → a < b) ∧
+  (∀ a ∈ names, ∀ b ∈ names, isBefore a = false → isBefore b = false → dateOf a = dateOf b → a = b)
+
+instance (names : List String) : Decidable (AsofWF names) := by unfold AsofWF; infer_instance
+
+/-- child `k` is the one in force at date `t`: the `before…` child when `t` precedes every `after_`
+    date, else the `after_` child with the greatest date `≤ t` -/
+def InForce (names : List String) (t : Int) (k : String) : Prop :=
+  k ∈ names ∧
+  ((isBefore k = true ∧ ∀ a ∈ names, isBefore a = false → t < dateOf a) ∨
+   (isBefore k = false ∧ dateOf k ≤ t ∧ ∀ a ∈ names, isBefore a = false → dateOf a ≤ t → dateOf a ≤ dateOf k))
 
 end OFCore.PView
